@@ -82,6 +82,8 @@ fn noop_waker() -> Waker {
 #[derive(Clone, Debug)]
 pub enum T {
   Out(u64, Ev),
+  /// delivery to subscriber I of a case with two subscriptions
+  Out2(usize, u64, Ev),
   Ret(bool),
   Ran(usize, usize, u64),
   InnerUnsub(usize),
@@ -99,6 +101,11 @@ pub fn show(l: &[T]) -> String {
     match t {
       T::Out(at, e) => {
         write!(s, "(t {at} ").unwrap();
+        e.show(&mut s);
+        s.push(')');
+      }
+      T::Out2(i, at, e) => {
+        write!(s, "(t2 {i} {at} ").unwrap();
         e.show(&mut s);
         s.push(')');
       }
@@ -129,6 +136,27 @@ impl Observer<Val, i64> for TProbe {
   }
   fn is_finished(&self) -> bool {
     self.fin.load(Ordering::SeqCst)
+  }
+}
+
+/// recording subscriber of a case with two subscriptions
+pub struct TProbe2 {
+  id: usize,
+  log: TLog,
+}
+
+impl Observer<Val, i64> for TProbe2 {
+  fn next(&mut self, v: Val) {
+    self.log.lock().unwrap().push(T::Out2(self.id, now_ms(), Ev::Next(v)));
+  }
+  fn error(self, e: i64) {
+    self.log.lock().unwrap().push(T::Out2(self.id, now_ms(), Ev::Err(e)));
+  }
+  fn complete(self) {
+    self.log.lock().unwrap().push(T::Out2(self.id, now_ms(), Ev::Done));
+  }
+  fn is_finished(&self) -> bool {
+    false
   }
 }
 
@@ -287,6 +315,76 @@ macro_rules! timed_runner {
         }
         let r = show(&log.lock().unwrap());
         std::mem::forget(sub);
+        r
+      }
+
+      /// (timed2 OP (labels L...)): two subscriptions made from clones of ONE operator value over a subject:
+      /// each has its own timers, buffers and pending deliveries
+      pub fn run_two(body: &[Sexp]) -> String {
+        use crate::chain::$chain::Obs;
+        install_timer();
+        NOW.with(|n| n.set(0));
+        TIMER_REQS.with(|r| r.borrow_mut().clear());
+        SPAWNED.with(|q| q.borrow_mut().clear());
+        let log: TLog = TLog::default();
+        let src: Src = Src::default();
+        let sch = VerifScheduler;
+        let op = &body[0];
+        let a = op.args();
+        let input: Obs = src.clone().box_it();
+        let timed: Obs = match op.head() {
+          "delay" => input.$delay(ms(a[0].int() as u64), sch.clone()).box_it(),
+          "observe_on" => input.$observe_on(sch.clone()).box_it(),
+          "delay_subscription" => input.delay_subscription(ms(a[0].int() as u64), sch.clone()).box_it(),
+          "subscribe_on" => input.subscribe_on(sch.clone()).box_it(),
+          "debounce" => input.debounce(ms(a[0].int() as u64), sch.clone()).box_it(),
+          "buffer_with_time" => input.buffer_with_time(ms(a[0].int() as u64), sch.clone()).map(Val::L).box_it(),
+          "buffer_with_count_and_time" => {
+            input.buffer_with_count_and_time(a[0].usize(), ms(a[1].int() as u64), sch.clone()).map(Val::L).box_it()
+          }
+          h => panic!("bad timed2 op {h}"),
+        };
+        let mut subs = vec![];
+        for i in 0..2 {
+          subs.push(Some(timed.clone().actual_subscribe(TProbe2 { id: i, log: log.clone() })));
+        }
+        let mut tasks: Vec<Option<SpawnedTask>> = vec![];
+        let collect = |tasks: &mut Vec<Option<SpawnedTask>>| {
+          SPAWNED.with(|q| {
+            for t in q.borrow_mut().drain(..) {
+              tasks.push(Some(t));
+            }
+          })
+        };
+        collect(&mut tasks);
+        let waker = noop_waker();
+        for (j, l) in body[1].args().iter().enumerate() {
+          log.lock().unwrap().push(T::Mark(j));
+          let la = l.args();
+          match l.head() {
+            "src" => crate::chain::$chain::emit(&src, Ev::parse(&la[0])),
+            "run" => {
+              if let Some(slot) = tasks.get_mut(la[0].usize()) {
+                if let Some(f) = slot.as_mut() {
+                  let mut cx = Context::from_waker(&waker);
+                  if f.as_mut().poll(&mut cx).is_ready() {
+                    *slot = None;
+                  }
+                }
+              }
+            }
+            "adv" => NOW.with(|n| n.set(n.get() + (la[0].int() as u128) * unit())),
+            "unsub" => {
+              if let Some(u) = subs.get_mut(la[0].usize()).and_then(|s| s.take()) {
+                u.unsubscribe();
+              }
+            }
+            h => panic!("bad timed2 label {h}"),
+          }
+          collect(&mut tasks);
+        }
+        let r = show(&log.lock().unwrap());
+        std::mem::forget(subs);
         r
       }
 
@@ -455,6 +553,16 @@ pub fn run_timed(body: &[Sexp]) -> String {
     "local" | "local_us" => local::run(&body[1..]),
     "threads" | "threads_us" => threads::run(&body[1..]),
     f => panic!("bad timed form {f}"),
+  }
+}
+
+/// (timed2 FORM OP (labels ...))
+pub fn run_timed2(body: &[Sexp]) -> String {
+  UNIT.with(|u| u.set(1_000_000));
+  match body[0].atom() {
+    "local" => local::run_two(&body[1..]),
+    "threads" => threads::run_two(&body[1..]),
+    f => panic!("bad timed2 form {f}"),
   }
 }
 
